@@ -214,6 +214,15 @@ void supla_verif_hook_relay_hi(int port, unsigned char hi) {
   if (fw_hook_relay_log) sdk_out("RELAYHI %d %u %llu", port, hi, (unsigned long long)sdk_now_us);
 }
 
+/* ---- hooks in mqtt.c (__mqtt_recv): every receive pass and every packet taken out of the buffer ---- */
+int fw_hook_mqtt_log = 0;
+void supla_verif_hook_mqtt_recv_begin(void) {
+  if (fw_hook_mqtt_log) sdk_out("MQSYNC");
+}
+void supla_verif_hook_mqtt_handled(int control_type, long consumed, long result) {
+  if (fw_hook_mqtt_log) sdk_out("MQH %d %ld %d", control_type, consumed, result == 1 ? 1 : 0);
+}
+
 #ifdef MQTT_SUPPORT_ENABLED
 /* ---- MQTT board hooks: print what the command handler is given ---- */
 #include <supla_esp_mqtt.h>
